@@ -249,7 +249,7 @@ pub fn check_shape(n: usize, edges: u32, dir: &Path, case: &Value) -> (Vec<Viola
 // ---------------------------------------------------------------------------------------------
 // (b), (c) output contract and filter law through the binary
 
-pub const CORPUS: [(&str, &str); 4] = [
+pub const CORPUS: [(&str, &str); 5] = [
     (
         "mixed",
         "pragma circom 2.0.0;\n\nfunction g(a) {\n    var unused = 3;\n    return a * 2;\n}\n\ntemplate A(n) {\n    signal input in;\n    signal output out;\n    signal mid;\n    var x = 0;\n    mid <-- in / 2;\n    if (1 == 1) {\n        x = g(n);\n    }\n    out <-- ~in;\n    component c = Num2Bits(254);\n    c.in <== in;\n}\n\ntemplate Num2Bits(n) {\n    signal input in;\n    signal output out[n];\n    var lc = 0;\n    for (var i = 0; i < n; i++) {\n        out[i] <-- (in >> i) & 1;\n        out[i] * (out[i] - 1) === 0;\n        lc += out[i] * 2 ** i;\n    }\n    lc === in;\n}\n\ncomponent main = A(2);\n",
@@ -266,7 +266,24 @@ pub const CORPUS: [(&str, &str); 4] = [
         "errors",
         "pragma circom 2.0.0;\n\ntemplate E(n, n) {\n    signal input in;\n    signal output out;\n    out <== in;\n}\n\ntemplate F() {\n    signal input in;\n    signal output out;\n    out <-- in;\n    out === undefined_name;\n}\n",
     ),
+    (
+        // Several findings that agree on rule id and primary location (one per unused output
+        // port of the same component), and - with the extra inputs below - several findings
+        // with the same id and no location at all.
+        "twins",
+        "pragma circom 2.0.0;\n\ntemplate Two() {\n    signal input in;\n    signal output o1;\n    signal output o2;\n    signal output o3[2];\n    o1 <== in;\n    o2 <== in;\n    o3[0] <== in;\n    o3[1] <== in;\n}\n\ntemplate W() {\n    signal input in;\n    signal output out;\n    component t = Two();\n    t.in <== in;\n    component u[2];\n    for (var i = 0; i < 2; i++) {\n        u[i] = Two();\n        u[i].in <== in;\n    }\n    out <-- in;\n    out <-- in;\n}\n\ncomponent main = W();\n",
+    ),
 ];
+
+/// Input arguments of a corpus project: the main file and, for `twins`, two files that do not
+/// exist (named by absolute path so that every run prints the same message).
+pub fn corpus_inputs(name: &str, dir: &Path, main: &str) -> String {
+    if name == "twins" {
+        format!("{main} {0}/nosuch1.circom {0}/nosuch2.circom", dir.display())
+    } else {
+        main.to_string()
+    }
+}
 
 pub const INCLUDED: &str = "pragma circom 2.0.0;\n\ntemplate Lib() {\n    signal input in;\n    signal output out;\n    out <-- in;\n}\n";
 
@@ -303,7 +320,9 @@ fn sorted(mut v: Vec<String>) -> Vec<String> {
 }
 
 pub fn run_config(dir: &Path, file: &str, level: &str, allow: &[String], verbose: bool, sarif: bool) -> BinRun {
-    let mut args = vec![file.to_string(), "--level".to_string(), level.to_string()];
+    // `file` may name several inputs, separated by spaces.
+    let mut args: Vec<String> = file.split(' ').map(String::from).collect();
+    args.extend(["--level".to_string(), level.to_string()]);
     for a in allow {
         args.push("--allow".into());
         args.push(a.clone());
@@ -543,14 +562,15 @@ pub fn run(run: &Run) {
             main
         };
         runner::write_project(&dir, &[("main.circom", &main), ("lib.circom", INCLUDED)]);
-        let unfiltered = run_config(&dir, "main.circom", "info", &[], true, false);
+        let unfiltered_main = run_config(&dir, "main.circom", "info", &[], true, false);
+        let unfiltered = run_config(&dir, &corpus_inputs(name, &dir, "main.circom"), "info", &[], true, false);
         // File clause: everything the analysis produces (in-process, unfiltered) that is not
         // located solely in an only-included file must be displayed at --level info.
         {
             let case = json!({"kind": "file-clause", "corpus": name});
             run.eval(1);
             run.nontrivial(1);
-            run.violations(check_file_clause(name, &dir, &unfiltered, &case));
+            run.violations(check_file_clause(name, &dir, &unfiltered_main, &case));
         }
         let mut ids: Vec<String> = unfiltered.diagnostics.iter().filter_map(|d| d.id.clone()).collect();
         ids.sort();
@@ -582,7 +602,7 @@ pub fn run(run: &Run) {
             let sub = dir.join(format!("w{i}"));
             let _ = std::fs::create_dir_all(&sub);
             // Each configuration writes its SARIF file into its own directory.
-            let vs = check_contract(name, &sub, "../main.circom", level, allow, *verbose, *sarif, &unfiltered_diags, &case);
+            let vs = check_contract(name, &sub, &corpus_inputs(name, &dir, "../main.circom"), level, allow, *verbose, *sarif, &unfiltered_diags, &case);
             run.eval(1);
             if !allow.is_empty() || level != "info" {
                 run.nontrivial(1);
@@ -617,14 +637,14 @@ pub fn replay(case: &Value) -> Vec<Violation> {
                 format!("include \"lib.circom\";\n{text}")
             };
             runner::write_project(&base, &[("main.circom", &main), ("lib.circom", INCLUDED)]);
-            let unfiltered = run_config(&base, "main.circom", "info", &[], true, false);
+            let unfiltered = run_config(&base, &corpus_inputs(name, &base, "main.circom"), "info", &[], true, false);
             let allow: Vec<String> = case["allow"].as_array().map(|a| a.iter().filter_map(|v| v.as_str().map(String::from)).collect()).unwrap_or_default();
             let sub = base.join("w");
             let _ = std::fs::create_dir_all(&sub);
             check_contract(
                 name,
                 &sub,
-                "../main.circom",
+                &corpus_inputs(name, &base, "../main.circom"),
                 case["level"].as_str().unwrap_or("info"),
                 &allow,
                 case["verbose"].as_bool().unwrap_or(true),
